@@ -242,7 +242,7 @@ const PLAIN: &[char] = &[
 const SPECIALS: &[char] = &['{', '}', '(', ')', '\\'];
 const FILLS: &[char] = &[' ', '*', '0', '9', '}', '{', '(', ')', '\\', '<', '>', ':', '.', '\u{e9}', '\u{4e2d}', '\u{1f600}'];
 const DATE_FMTS: &[&str] = &["%Y-%m-%d", "%H:%M", "%Y", "%%", "", "at %e %b", "%Y-%m-%dT%H:%M:%S%z", "%s", "%A", "wk %U"];
-const KEYS: &[&str] = &["k", "user_id", "cl\u{e9}", "nokey", "a b", "9", ":"];
+const KEYS: &[&str] = &["k", "user_id", "cl\u{e9}", "nokey", "a b", "9", ":", "a{b", "x)y", "b\\s", "({})", "k{", "k}", "k(", "k)", "k\\"];
 
 fn lit_of(c: char, rng: &mut Rng, in_arg: bool) -> Lit {
     if is_special(c) {
@@ -261,6 +261,11 @@ fn lit_of(c: char, rng: &mut Rng, in_arg: bool) -> Lit {
 
 fn plain_lits(s: &str) -> Vec<Lit> {
     s.chars().map(|c| Lit { c, esc: Esc::P }).collect()
+}
+
+/// the text of `s` as literals inside an argument: specials escaped (either style; `)` by backslash)
+fn escaped_lits(rng: &mut Rng, s: &str) -> Vec<Lit> {
+    s.chars().map(|c| lit_of(c, rng, true)).collect()
 }
 
 fn gen_text_lits(rng: &mut Rng, in_arg: bool, s: &str) -> Vec<Lit> {
@@ -317,7 +322,7 @@ fn gen_pat(rng: &mut Rng, depth: u32, in_arg: bool) -> Pat {
         4..=6 => Pat::Lit(lit_of(*rng.pick(SPECIALS), rng, in_arg)),
         7..=11 => {
             let k = rng.below(LEAVES.len() as u64) as usize;
-            let long = rng.chance(1, 2) && k != THREAD_ID;
+            let long = rng.chance(1, 2);
             Pat::Leaf(k, long, gen_spec(rng))
         }
         12 | 13 => {
@@ -330,9 +335,10 @@ fn gen_pat(rng: &mut Rng, depth: u32, in_arg: bool) -> Pat {
             Pat::Date(rng.chance(1, 2), args, gen_spec(rng))
         }
         14 | 15 => {
-            let key = plain_lits(*rng.pick(KEYS));
-            let d: &str = *rng.pick(&["none", "d", "n/a", "\u{4e2d}", "- -"]);
-            let dflt = if rng.chance(1, 2) { Some(plain_lits(d)) } else { None };
+            let k: &str = *rng.pick(KEYS);
+            let key = escaped_lits(rng, k);
+            let d: &str = *rng.pick(&["none", "d", "n/a", "\u{4e2d}", "- -", "{}", "(d)", "\\"]);
+            let dflt = if rng.chance(1, 2) { Some(escaped_lits(rng, d)) } else { None };
             Pat::Mdc(rng.chance(1, 2), key, dflt, gen_spec(rng))
         }
         _ => {
@@ -384,6 +390,9 @@ pub fn gen(rng: &mut Rng, n: usize, thorough: bool, emit: &mut dyn FnMut(String)
     full.file = Some("src/m\u{e9}.rs".into());
     full.thread = Some("w\u{f6}rker".into());
     full.mdc = vec![("k".into(), "v\u{4e2d}".into()), ("user_id".into(), "42".into())];
+    for c in SPECIALS {
+        full.mdc.push((format!("k{}", c), format!("value-of-{}", c)));
+    }
     let mut bare = Case::simple("");
     bare.module = None;
     bare.file = None;
@@ -457,10 +466,12 @@ pub fn gen(rng: &mut Rng, n: usize, thorough: bool, emit: &mut dyn FnMut(String)
     }
     // 4. MDC hit / miss / default, date with and without zone
     for key in KEYS {
-        for dflt in [None, Some("dflt"), Some("\u{4e2d} x")] {
+        for dflt in [None, Some("dflt"), Some("\u{4e2d} x"), Some("{(\\)}")] {
             for long in [false, true] {
-                emit(case_line(&[Pat::Mdc(long, plain_lits(key), dflt.map(plain_lits), None)], &full));
-                emit(case_line(&[Pat::Mdc(long, plain_lits(key), dflt.map(plain_lits), spec(None, Some(true), Some("7"), None))], &base));
+                let k = escaped_lits(rng, key);
+                let d = dflt.map(|d| escaped_lits(rng, d));
+                emit(case_line(&[Pat::Mdc(long, k.clone(), d.clone(), None)], &full));
+                emit(case_line(&[Pat::Mdc(long, k, d, spec(None, Some(true), Some("7"), None))], &base));
             }
         }
     }
@@ -474,7 +485,7 @@ pub fn gen(rng: &mut Rng, n: usize, thorough: bool, emit: &mut dyn FnMut(String)
     }
     emit(case_line(&[Pat::Date(false, None, None)], &base));
     emit(case_line(&[Pat::Date(true, None, spec(None, None, Some("40"), None))], &base));
-    // 5. the findings' witnesses: {thread_id} (F5)
+    // 5. {thread_id} (F5, repaired): the alias next to text and under a spec
     emit(case_line(&[Pat::Leaf(THREAD_ID, true, None)], &base));
     emit(case_line(&[lit('a', Esc::P), Pat::Leaf(THREAD_ID, true, None), lit('b', Esc::P)], &base));
     // 6. random trees
@@ -490,7 +501,21 @@ pub fn gen(rng: &mut Rng, n: usize, thorough: bool, emit: &mut dyn FnMut(String)
         if i % 50 == 2 {
             ps.push(Pat::Mdc(false, vec![Lit { c: 'k', esc: Esc::P }, Lit { c: '{', esc: Esc::D }], None, None));
         }
-        let rec = c11::random_record(rng, "");
+        let mut rec = c11::random_record(rng, "");
+        for k in KEYS {
+            if rng.chance(1, 3) {
+                rec.mdc.push(((*k).to_owned(), (*rng.pick(c11::TEXTS)).to_owned()));
+            }
+        }
+        let mut seen: Vec<String> = vec![];
+        rec.mdc.retain(|kv| {
+            if seen.contains(&kv.0) {
+                false
+            } else {
+                seen.push(kv.0.clone());
+                true
+            }
+        });
         emit(case_line(&ps, &rec));
     }
 }
